@@ -563,12 +563,12 @@ func H_c14_profile_string() {
 // blocks, lists, objects, templates with interpolation and control sequences, heredocs,
 // for-expressions, function calls, conditionals, splats, indexing and operators.
 var verifSkeletons = []string{
+	"k = \"%{for a, b in l}x${b}%{endfor}\"\r\nm = <<E\r\nx\r\nE\r\n",
 	"A \"l\" {\n  k = \"v${1}w\"\n  B {\n    n = [1, \"x\"]\n  }\n}\n",
 	"k = {a = 1, \"b\" = f(2, x...)}\nm = <<E\n t${a}\nE\n",
 	"k = [for i, v in l: v if i]\nj = a ? b.c[0] : d.*.e\n",
 	"k = \"%{if a}x%{else}y%{endif}\"\nn = -1 + (2 * !t)\n",
 	"k = {for k, v in m: k => v...}\nh = <<-E\n  a\n  E\nz = a[*].b\n",
-	"k = \"%{for a, b in l}x${b}%{endfor}\"\r\nm = <<E\r\nx\r\nE\r\n",
 }
 
 // H_c17_mutate: single-fault mutations of well-formed sources: one byte at any position of
